@@ -27,6 +27,8 @@ def edit(tree, op):
     k = op[0]
     if k == "write":
         add_parents(t, op[1])
+        for q in [q for q in t if q.startswith(op[1] + "/")]:   # the path was a folder: it becomes a file, what was below is gone
+            del t[q]
         t[op[1]] = op[2]
     elif k == "rm":
         for p in list(t):
